@@ -12,6 +12,10 @@
   `connectionLost` is a separate, later operation): see `after_close_every_execute_fails`,
   `lost_after_close_fails_all_pending`, `close_then_lost`.
 
+  Histories may also contain `execute` calls whose sending fails (`Op.execFail`: encoding or `transport.write`
+  raises): `failed_send_leaves_no_deferred`, `reply_after_failed_send`; mutant `Orphan.*` (register before send):
+  `orphan_counterexample`.
+
   Full-strength results: at-most-once, tid matching, FIFO order, unsolicited/duplicate replies dropped, all
   pending deferreds failed on loss (in table order, re-entrant requests included), every request issued while
   the connection is down fails, no exception.  For the serial (FIFO) variant the whole property holds
@@ -321,6 +325,85 @@ theorem C16_always (v : Variant) (ops : List Op) : Spec.Always v (hist v ops) wh
   unsolicited := unsolicited_dropped_hist v ops
   failsWhenDown := fails_when_down_hist v ops
   noExc := by rw [flat_hist]; exact no_exception v ops
+
+/-! ### a request whose sending fails -/
+
+/-- **failed_send_leaves_no_deferred.**  An `execute` whose encoding or write raises (on any state, connected or
+    not): the exception escapes, no deferred exists, nothing is fired and nothing is written; the transaction
+    table, the connection flag and the numbering of the requests are exactly what they were – only an id of the
+    16-bit counter is consumed. -/
+theorem failed_send_leaves_no_deferred (v : Variant) (s : State) (w : FailAt) :
+    (step v s (.execFail w)).1 = { s with tid := allocTid v s } ∧
+    (step v s (.execFail w)).1.pending = s.pending ∧
+    (step v s (.execFail w)).2 = [.sendFail w] ∧
+    fired (step v s (.execFail w)).2 = [] ∧ sents (step v s (.execFail w)).2 = [] :=
+  ⟨rfl, rfl, rfl, rfl, rfl⟩
+
+/-- the outstanding requests (read off the trace) are the same before and after -/
+theorem failed_send_keeps_outstanding (v : Variant) (s : State) (w : FailAt) (pre : List Event) :
+    Spec.outstanding (pre ++ (step v s (.execFail w)).2) = Spec.outstanding pre := by
+  simp [Spec.outstanding, step, execFail]
+
+/-- a reply that arrives after a failed send is matched exactly as it would have been without it: it is handed
+    to the same table entry (TCP: the entry under its id; serial: the oldest real request, which is still at the
+    head of the queue) -/
+theorem reply_after_failed_send (v : Variant) (s : State) (w : FailAt) (t tag : Nat) :
+    (AsyncClient.get v (step v s (.execFail w)).1 t).1 = (AsyncClient.get v s t).1 ∧
+    ∀ e, (AsyncClient.get v s t).1 = some e →
+      Event.callback e.id t tag ∈ (step v (step v s (.execFail w)).1 (.reply t tag)).2 := by
+  have hg : (AsyncClient.get v (step v s (.execFail w)).1 t).1 = (AsyncClient.get v s t).1 := by
+    cases v with
+    | dict => rfl
+    | fifo =>
+      simp only [step, execFail, AsyncClient.get]
+      cases s.pending with
+      | nil => rfl
+      | cons p r => rfl
+  refine ⟨hg, ?_⟩
+  intro e he
+  rw [← hg] at he
+  simp only [step, reply]
+  have : AsyncClient.get v (execFail v s w).1 t = (some e, (AsyncClient.get v (execFail v s w).1 t).2) :=
+    Prod.ext he rfl
+  rw [this]
+  exact fireOk_head _ _ _ _
+
+/-- in a serial history: after any history and a failed send, the next reply fires the oldest pending request -/
+theorem fifo_reply_oldest_after_failed_send (ops : List Op) (w : FailAt) (t tag k : Nat) (e : Entry)
+    (rest : List (Nat × Entry)) (hp : (run .fifo init ops).1.pending = (k, e) :: rest) :
+    Event.callback e.id t tag ∈ (run .fifo init (ops ++ [.execFail w, .reply t tag])).2 := by
+  have hg : (AsyncClient.get .fifo (run .fifo init ops).1 t).1 = some e := by simp [AsyncClient.get, hp]
+  have := (reply_after_failed_send .fifo (run .fifo init ops).1 w t tag).2 e hg
+  simp only [run_append, run, List.append_nil, List.mem_append]
+  exact Or.inr (Or.inr this)
+
+/-- the serial scenario of the mutant below, on the model of the real code: the reply goes to request 0 -/
+def failedSendOps : List Op :=
+  [.connectionMade, .execFail .encode, .execute .plain, .reply 1 7, .connectionLost]
+
+theorem failed_send_fifo_example :
+    (run .fifo init failedSendOps).2 = [.sendFail .encode, .sent 0 2, .callback 0 1 7] := by decide
+
+/-- **orphan_counterexample** (mutant `Orphan.*`: the deferred is registered before the request is encoded and
+    written).  The failed `execute` leaves a deferred nobody holds at the head of the FIFO queue; the reply to
+    the next request is handed to it (`callback 0`: request number 0 was never written), the real request 1 gets
+    no reply and is failed with the connection error at the loss although its reply had arrived. -/
+theorem orphan_counterexample :
+    (Orphan.run .fifo init failedSendOps).2 =
+      [.sendFail .encode, .sent 1 2, .callback 0 1 7, .errback 1 .lost] ∧
+    (Orphan.step .fifo ⟨0, [], true, 0⟩ (.execFail .encode)).1.pending = [(1, ⟨0, .plain⟩)] ∧
+    ¬ Spec.TidMatch (Orphan.run .dict init [.connectionMade, .execFail .write, .reply 1 7]).2 := by decide
+
+/-- Tie to the source, OBSERVED on the real protocol objects on every run (harness/gen_tables.async_failed_send):
+    an `execute` whose request cannot be encoded, or whose `transport.write` raises, raises to the caller and
+    leaves as many entries in the transaction table as the model (none), for both managers. -/
+theorem generated_failed_send :
+    Generated.asyncFailedSend.map (fun r => (r.1, r.2.1)) =
+      [("dict", "encode"), ("dict", "write"), ("fifo", "encode"), ("fifo", "write")] ∧
+    Generated.asyncFailedSend.all (fun r => r.2.2.2 &&
+      (step (if r.1 = "dict" then .dict else .fifo) ⟨0, [], true, 0⟩
+        (.execFail (if r.2.1 = "encode" then .encode else .write))).1.pending.length == r.2.2.1) = true := by
+  decide
 
 /-! ### distinct transaction ids (TCP): full, thanks to the repaired allocation (5cae7f5) -/
 
